@@ -52,18 +52,24 @@ func c03ResumeOracle(rs *runState) ([]vio, c03sStats) {
 	}
 	lastPack := map[string][]pack{} // accepted packs with rows, per stream, in accept order
 	type cp struct {
-		id uint64
-		ok bool
+		id   uint64
+		time int64 // milliseconds, as persisted
+		ok   bool
 	}
 	cur := map[string]cp{}
 	pending := map[string]bool{}
 	floor := map[string]uint64{} // closing tick of the pack the stream was resumed from (current incarnation)
+	// tickAbove: that closing tick lies at or above the clock floor the persisted checkpoint time yields
+	// (ComposeTS(Time+1, 0)): the tick came from the shared channel clock, pushed ahead by other streams, while the
+	// checkpoint time is the pack's EndTs (its last row) - recorded finding, own key
+	tickAbove := map[string]bool{}
 	judged := map[string]bool{}
 	flagged := map[string]bool{}
 	armed := false
 	snapshot := func() {
 		st.points++
 		floor = map[string]uint64{}
+		tickAbove = map[string]bool{}
 		for k, c := range cur {
 			if pending[k] {
 				st.ambiguous++
@@ -85,6 +91,9 @@ func c03ResumeOracle(rs *runState) ([]vio, c03sStats) {
 				continue
 			}
 			floor[k] = hit.tick
+			if hit.tick >= uint64(c.time+1)<<18 {
+				tickAbove[k] = true
+			}
 		}
 	}
 	for _, e := range evs {
@@ -97,7 +106,7 @@ func c03ResumeOracle(rs *runState) ([]vio, c03sStats) {
 				} else {
 					delete(pending, k)
 					if e.Store.Err == "" {
-						cur[k] = cp{pe.MsgID, true}
+						cur[k] = cp{pe.MsgID, pe.Time, true}
 					}
 				}
 			}
@@ -142,7 +151,11 @@ func c03ResumeOracle(rs *runState) ([]vio, c03sStats) {
 				}
 				if e.TSs[i] <= f && !flagged[k] {
 					flagged[k] = true
-					out = append(out, vio{"C03/row-after-resume-not-above-closing-tick-of-the-pack-resumed-from", fmt.Sprintf("stream %s was resumed (incarnation %d) from the checkpoint of a pack that the downstream had accepted with closing tick %d on channel %s; after the restart / resume the downstream accepted at clock %d row message uid=%d of that stream with timestamp %d, which is not above that tick", k, e.Inc, f, e.Chan, e.Clock, u, e.TSs[i])})
+					key := "C03/row-after-resume-not-above-closing-tick-of-the-pack-resumed-from"
+					if tickAbove[k] {
+						key = "C03/closing-tick-above-the-checkpoint-time-of-its-pack"
+					}
+					out = append(out, vio{key, fmt.Sprintf("stream %s was resumed (incarnation %d) from the checkpoint of a pack that the downstream had accepted with closing tick %d on channel %s; after the restart / resume the downstream accepted at clock %d row message uid=%d of that stream with timestamp %d, which is not above that tick", k, e.Inc, f, e.Chan, e.Clock, u, e.TSs[i])})
 				}
 			}
 		}
